@@ -13,6 +13,7 @@ Definition wf_ev (e : ev) : Prop :=
   match e with
   | ECall cf _ _ => wf_cfg cf
   | EDispatch b => 1 <= b
+  | ERefuse b => 1 <= b
   | ECbFinish _ b => 1 <= b
   | _ => True
   end.
@@ -149,6 +150,8 @@ Hypothesis P_exhaust : forall s, P s -> orig s = true ->
   (aborting s = true \/ (ready s = [] /\ N s <= taken s)) -> P (set_flags s false false (phase s)).
 Hypothesis P_want : forall s, P s -> P (set_want s).
 Hypothesis P_close_try : forall s, P s -> phase s = Retrieving -> P (abandon (finalize s Finished true true)).
+(* the backend refuses the batch the caller has just registered: the call is aborted from inside _start *)
+Hypothesis P_refuse : forall s, P s -> (phase s = StartFirst \/ phase s = StartLoop) -> P (finalize s Finished true true).
 Hypothesis P_close_drain : forall s r, P s -> phase s = Draining r -> P (abandon (set_out s (jobs s) (jset s) [] false Finished)).
 Hypothesis P_timeout : forall s j, P s -> want s = true -> timeout_target s = Some j -> status_of s j = Pending ->
   P (do_timeout s j).
@@ -232,7 +235,7 @@ Qed.
 
 Lemma P_step_raw s e : P s -> 1 <= n_jobs (c s) -> wf_ev e -> P (fst (step_raw true s e)).
 Proof.
-  intros Hs Hnj Hwf. destruct e as [cf n f|b|t o|t b| | | ]; cbn [step_raw].
+  intros Hs Hnj Hwf. destruct e as [cf n f|b|t o|t b| | | |b]; cbn [step_raw].
   - destruct (running s) eqn:Hr; [exact Hs|].
     destruct (phase s) eqn:Hph; cbn [fst]; try exact Hs; apply P_call; auto.
   - cbn [wf_ev] in Hwf. destruct (phase s) eqn:Hph; try exact Hs.
@@ -268,6 +271,32 @@ Proof.
     destruct (timeout_target s) as [j|] eqn:Ht; [|exact Hs].
     destruct (status_of s j) eqn:Hst; cbn [fst]; try exact Hs.
     apply P_timeout; assumption.
+  - (* the backend refuses the batch *)
+    cbn [wf_ev] in Hwf. destruct (phase s) eqn:Hph; try exact Hs.
+    + pose proof (dispatch_one_batch_shape s b false Hnj Hwf) as Hsh.
+      destruct (dispatch_one_batch s b false) as [s1 r] eqn:Hd. cbn [fst snd] in Hsh.
+      assert (H1 : P s1) by (apply (P_dispatch s b false s1 r Hs Hnj Hwf); [intros _; left; exact Hph | exact Hsh]).
+      assert (Hph1 : phase s1 = StartFirst) by (inversion Hsh; subst; exact Hph).
+      destruct (r && negb (aborting s1)); [cbn [fst]; apply P_refuse; [exact H1 | left; exact Hph1]|].
+      assert (Hnm : r = false -> no_more s1).
+      { intros ->. inversion Hsh; subst.
+        - left. assumption.
+        - right. split; [assumption|].
+          match goal with Hx : _ \/ _ \/ _ |- _ => destruct Hx as [Hy | [[_ Hy] | Hy]]; [left; exact Hy | right; exact Hy | exfalso; nia] end. }
+      pose proof (P_start_first s1 r H1 Hph1 Hnm) as H2.
+      cbn [fst]. destruct (aborting _) eqn:Hab2; [|exact H2].
+      apply P_end_start; [exact H2 | reflexivity | left; exact Hab2].
+    + pose proof (dispatch_one_batch_shape s b false Hnj Hwf) as Hsh.
+      destruct (dispatch_one_batch s b false) as [s1 r] eqn:Hd. cbn [fst snd] in Hsh.
+      assert (H1 : P s1) by (apply (P_dispatch s b false s1 r Hs Hnj Hwf); [intros _; right; exact Hph | exact Hsh]).
+      assert (Hph1 : phase s1 = StartLoop) by (inversion Hsh; subst; exact Hph).
+      destruct (r && negb (aborting s1)); [cbn [fst]; apply P_refuse; [exact H1 | right; exact Hph1]|].
+      destruct r.
+      * destruct (aborting s1) eqn:Hab1; cbn [fst]; [apply P_end_start; [exact H1 | exact Hph1 | left; exact Hab1] | exact H1].
+      * cbn [fst]. apply P_end_start; [exact H1 | exact Hph1 |]. inversion Hsh; subst.
+        -- left. assumption.
+        -- right. split; [assumption|].
+           match goal with Hx : _ \/ _ \/ _ |- _ => destruct Hx as [Hy | [[_ Hy] | Hy]]; [left; exact Hy | right; exact Hy | exfalso; nia] end.
 Qed.
 
 Lemma P_step s e : P s -> 1 <= n_jobs (c s) ->
@@ -405,7 +434,8 @@ Theorem stop_after_abort g s e :
 Proof.
   intros Hab Hne.
   assert (Hraw : input_fields (fst (step_raw g s e)) = input_fields s /\ aborting (fst (step_raw g s e)) = true).
-  { destruct e as [cf n f|b|t o|t b| | | ]; cbn [step_raw].
+  { destruct e as [cf n f|b|t o|t b| | | |b]; cbn [step_raw];
+      [| | | | | | | destruct (phase s); cbn [fst]; auto; rewrite (dispatch_aborting s b false Hab); cbn; rewrite ?Hab; cbn; auto].
     - exfalso. eapply Hne. reflexivity.
     - destruct (phase s); cbn [fst]; auto; rewrite (dispatch_aborting s b false Hab); cbn; rewrite ?Hab; cbn; auto.
     - cbn [fst]. destruct (cb_start_input s t o) as [H1 H2]. auto.
